@@ -47,6 +47,43 @@ def drive(binp, args, summary, timeout=3000):
     return json.load(open(summary))
 
 
+def validate_chunked(ctx, name, module, trace, consts, max_lines=40000, timeout=3000):
+    """TLC trace validation in chunks of whole cases (a single huge trace makes TLC's per-state cost grow and hits the
+    30-minute checkpoint, which the StateDeque queue does not support); verdicts are merged (case numbers are global)"""
+    chunks = []
+    cur, n = None, 0
+    idx = 0
+    with open(trace) as f:
+        for line in f:
+            if cur is None or (n >= max_lines and '"ev":"reset"' in line):
+                if cur:
+                    cur.close()
+                idx += 1
+                p = "%s.chunk%d" % (trace, idx)
+                chunks.append(p)
+                cur, n = open(p, "w"), 0
+            cur.write(line)
+            n += 1
+    if cur:
+        cur.close()
+    merged = None
+    for i, p in enumerate(chunks):
+        v = c.validate_trace(ctx, "%s-%d" % (name, i + 1), module, p, consts, timeout=timeout)
+        ctx.add_tlc("%s-trace-validation-%d" % (name, i + 1), v.res)
+        if merged is None:
+            merged = v
+        else:
+            merged.violations |= v.violations
+            for k, labs in v.known.items():
+                merged.known.setdefault(k, set()).update(labs)
+            merged.rejected += v.rejected
+            merged.states += v.states
+        os.remove(p)
+    if merged is None:
+        raise c.ToolError("empty trace " + trace)
+    return merged
+
+
 def binding_selftest(ctx, cases, v, kf):
     """corrupt accepted cases (one field each / one deleted event) and require that TLC rejects every one of them"""
     import copy
@@ -144,20 +181,20 @@ def check(ctx):
             f.write(json.dumps(s) + "\n")
     # (c, d) replay + random
     trace = ctx.path("trace.ndjson")
-    nrand = 500 if quick else 8000
+    nrand = 500 if quick else 5000
     info = drive(binp, ["--scenarios", scn_path, "--random", str(nrand), "--seed", str(ctx.seed), "--out", trace,
                         "--tmp", ctx.path("tmp"), "--sample", "300" if quick else "3000",
                         "--max-pk", "6" if quick else "10", "--max-bs", "300" if quick else "2000"], ctx.path("summary.json"))
     # (e) trace validation
-    v = c.validate_trace(ctx, "ft", "FileTransferTrace.tla", trace, kf, timeout=6000)
-    ctx.add_tlc("trace-validation", v.res)
+    v = validate_chunked(ctx, "ft", "FileTransferTrace.tla", trace, kf)
     cases = c.split_cases(trace)
     rej = {r[0]: r for r in v.rejected}
     for k in sorted(v.violations):
         r = rej.get(k)
         ctx.violation("case %d rejected by FileTransferTrace at line %s: %s" % (k, r[1] if r else "?", r[2] if r else "unfinished case"),
                       {"case": k, "trace": cases.get(k), "first_unmatched": r[2] if r else None, "kf_switches": kf,
-                       "how": "validate these lines with spec/FileTransferTrace.tla (TRACE=<file>)"})
+                       "module": "FileTransferTrace.tla", "consts": kf,
+                       "how": "bin/check C17 quick --replay <this file>"})
     for k, labels in v.known.items():
         if k not in v.violations:
             for lab in labels:
